@@ -137,7 +137,7 @@ macro_rules! list_rt {
 list_rt!(c03_rt_list_u16_n0, 0);
 list_rt!(c03_rt_list_u16_n1, 1);
 // @tier-of c03_rt_list_u16_n2 thorough
-// @mem 40
+// @mem 24
 list_rt!(c03_rt_list_u16_n2, 2);
 
 macro_rules! array_rt {
@@ -177,7 +177,7 @@ macro_rules! array_rt {
 array_rt!(c03_rt_array_u16_n0, 0);
 array_rt!(c03_rt_array_u16_n1, 1);
 // @tier-of c03_rt_array_u16_n2 thorough
-// @mem 40
+// @mem 24
 array_rt!(c03_rt_array_u16_n2, 2);
 
 /// map of 0..=2 (u8 -> u16) entries through serialize_map
@@ -243,7 +243,7 @@ macro_rules! map_rt {
 map_rt!(c03_rt_map_n0, 0);
 map_rt!(c03_rt_map_n1, 1);
 // @tier-of c03_rt_map_n2 thorough
-// @mem 40
+// @mem 24
 map_rt!(c03_rt_map_n2, 2);
 
 // @unwind 6
@@ -339,7 +339,7 @@ harness!(c20_size_received, |s| {
 
 // @tier thorough
 // @timeout 2400
-// @mem 30
+// @mem 24
 // @unwind 6
 // @bound Received with symbolic fields: encode then decode through the derive-generated Deserialize
 harness!(c03_rt_received, |s| {
